@@ -22,7 +22,7 @@ UNDECIDED_CLASSES = ("unwind", "unsupported_construct", "missing_definition", "r
 class Harness:
     def __init__(self, name, obligation, label, desc, crate="scylla", carries=True, canary=False,
                  tier="quick", bound=None, solver=None, timeout=None, functions=(), twin=False, search_only=False,
-                 needs_cover=False):
+                 needs_cover=False, unwind_is_violation=False):
         self.name = name              # bare function name of the harness (unique, prefixed cNN_)
         self.obligation = obligation  # obligation id, e.g. C11.shard_of.contract
         self.label = label            # PROVED-C | BOUNDED
@@ -36,6 +36,9 @@ class Harness:
         self.timeout = timeout
         self.functions = functions    # functions of /repo under contract in this harness
         self.search_only = search_only  # counterexample search for a contract Verus proves: run only when Verus fails; a time-out is not a verdict
+        # concrete-input harness with a generous unwinding bound: reaching the bound (loop or recursion) IS the violation
+        # (non-termination / input-controlled recursion depth), not a tool limit
+        self.unwind_is_violation = unwind_is_violation
         self.needs_cover = needs_cover  # vacuity guard: at least one kani::cover! of the harness must be SATISFIED
         self.twin = twin              # bounded twin of a Verus contract: runs when Verus cannot decide / reports a violation, and in thorough
 
@@ -86,6 +89,10 @@ def classify(h, res):
             and "unwinding assertion" not in c["description"]
             and "is not currently supported by Kani" not in c["description"]]
     soft = [c for c in failed if c not in hard]
+    if h.unwind_is_violation:
+        unw = [c for c in soft if check_class(c["id"]) in ("unwind", "recursion") or "unwinding assertion" in c["description"]]
+        if unw:
+            return "violated", "loop/recursion bound reached on a concrete input (does not terminate within the bound)", unw
     if h.canary:
         if hard:
             return "discharged", "canary refuted as expected", hard
